@@ -100,8 +100,8 @@ def cache_dir(*parts):
 def prune_cache(keep_prefix):
     """Remove cache entries of other trees (disk is limited)."""
     import shutil
-    if not os.path.isdir(CACHE):
-        return
+    if not os.path.isdir(CACHE) or os.environ.get("VERIF_OUT"):
+        return  # isolated sweeps run several trees side by side; tools/sweep_patches.sh cleans up itself
     for name in os.listdir(CACHE):
         p = os.path.join(CACHE, name)
         if os.path.isdir(p) and name.startswith("tree-") and not name.startswith(keep_prefix):
